@@ -22,7 +22,8 @@ RULE = ('two streams. load: built-in plugins switched on/off by PLUGIN_<NAME> + 
         'missing, name without a dot, constructor raising, switched off by config with many spellings — text, Python False, 0, '
         'the empty string, and DEEP_PLUGIN_<NAME> environment values incl. empty —, order() in '
         '{None, 0, negative, positive, ties, floats incl. negative fractions and families that collide when truncated or '
-        'rounded, x.0 ties, 0.0/-0.0, bools, raising, text, list}) through the real load_plugins; expected list = the loadable ones stably sorted by '
+        'rounded, x.0 ties, 0.0/-0.0, bools, raising, text, list}; distinct classes with the SAME class name in two modules and the '
+        'same entry listed twice: every usable configured entry is loaded as often as it is configured) through the real load_plugins; expected list = the loadable ones stably sorted by '
         '(order() or 0). callbacks: a set of 6-9 custom plugins of every kind (2 resource providers, 2 decorators, 1-2 loggers, 2 '
         'metric processors, 2 span processors, plus usually one plugin switched off by configuration that must never be loaded '
         'nor called) loaded by a real Deep with a fake gRPC channel; 5 fault points (plugin, callback) '
@@ -129,6 +130,19 @@ def gen_load(rng):
         fam = rng.choice(FRACTION_FAMILIES)
         for c in customs:
             c['order'] = rng.choice(fam)
+    if customs and rng.random() < 0.4:
+        # the identity of a plugin is its configured ENTRY, not its name: a distinct class with the same class name (so the
+        # same Plugin.name and the same PLUGIN_<NAME> switch) from another module, and/or the very same entry listed twice
+        for _ in range(rng.randint(1, 2)):
+            src = rng.choice(customs)
+            if src.get('module'):
+                continue
+            if rng.random() < 0.65 and not any(c.get('module') and c['name'] == src['name'] for c in customs):
+                twin = dict(src, module=1, how=rng.choice(['ok', 'ok', 'ctor_raises']) if src['how'] in ('ok', 'ctor_raises') else src['how'],
+                            order=rng.choice(ORDERS))
+            else:
+                twin = dict(src)
+            customs.insert(rng.randint(0, len(customs)), twin)
     return {'kind': 'load', 'builtin_switch': [rng.choice([None, None, 'False', 'True', 'no', False, 0, '', 'env:', True]) for _ in BUILTIN],
             'customs': customs}
 
@@ -210,6 +224,15 @@ def corpus():
                      {'name': 'Q3', 'how': 'ok', 'switch': 1, 'order': -4},
                      {'name': 'Q4', 'how': 'ok', 'switch': 2, 'order': 0},
                      {'name': 'Q5', 'how': 'ok', 'switch': None, 'order': 'list'}]},
+        # two distinct plugins with the same class name from different modules, and one entry listed twice: each
+        # configured entry is loaded (identity = the entry, not the name)
+        {'kind': 'load', 'builtin_switch': [None, None, None, None],
+         'customs': [{'name': 'Q0', 'how': 'ok', 'switch': None, 'order': 2},
+                     {'name': 'Q1', 'how': 'ok', 'switch': None, 'order': 0},
+                     {'name': 'Q0', 'how': 'ok', 'switch': None, 'order': -1, 'module': 1},
+                     {'name': 'Q1', 'how': 'ok', 'switch': None, 'order': 0},
+                     {'name': 'Q2', 'how': 'ctor_raises', 'switch': None, 'order': 0},
+                     {'name': 'Q2', 'how': 'ok', 'switch': None, 'order': 1, 'module': 1}]},
         # declared orders that collide when truncated or rounded, configured in the opposite sequence; bools; x.0 ties
         {'kind': 'load', 'builtin_switch': [None, None, None, None],
          'customs': [{'name': 'Q0', 'how': 'ok', 'switch': None, 'order': 1.5},
@@ -238,11 +261,16 @@ def run_load(case):
     from deep.config import ConfigService
     from deep.config.tracepoint_config import TracepointConfigService
     rec = fc_env.Recorder()
-    classes = []
+    # module A holds the classes of the entries; module B holds DISTINCT classes that have the same class name (and so the
+    # same Plugin.name) as one of A.  The same entry (same module, same name) listed twice is the same class twice.
+    per_mod = {0: {}, 1: {}}
     for c in case['customs']:
-        if c['how'] in ('ok', 'ctor_raises'):
-            classes.append(make_class(c['name'], 'plain', rec, {}, c['order'], ctor_raises=c['how'] == 'ctor_raises'))
-    modname = new_module(classes)
+        if c['how'] in ('ok', 'ctor_raises') and c['name'] not in per_mod[c.get('module', 0)]:
+            per_mod[c.get('module', 0)][c['name']] = make_class(c['name'], 'plain', rec, {}, c['order'],
+                                                                ctor_raises=c['how'] == 'ctor_raises')
+    modname = new_module(list(per_mod[0].values()))
+    modname_b = new_module(list(per_mod[1].values()))
+    cls_b = set(per_mod[1].values())
     names = []
     for c in case['customs']:
         if c['how'] == 'missing_module':
@@ -252,19 +280,20 @@ def run_load(case):
         elif c['how'] == 'no_dot':
             names.append(c['name'] + 'NoDot')
         else:
-            names.append(f'{modname}.{c["name"]}')
+            names.append(f'{modname_b if c.get("module") else modname}.{c["name"]}')
     custom = {'APP_ROOT': '/app'}
     envkeys = apply_switches(custom, [(b.rsplit('.', 1)[1], sw) for b, sw in zip(BUILTIN, case['builtin_switch'])] +
                              [(c['name'], c['switch']) for c in case['customs']])
     try:
         cfg = ConfigService(custom, tracepoints=TracepointConfigService())
         loaded = load_plugins(cfg, names)
-        return {'loaded': [type(p).__name__ for p in loaded]}
+        return {'loaded': [type(p).__name__ + ('@B' if type(p) in cls_b else '') for p in loaded]}
     except BaseException as e:      # noqa: B902
         return {'raised': f'{type(e).__name__}: {e}'}
     finally:
         clear_env(envkeys)
         sys.modules.pop(modname, None)
+        sys.modules.pop(modname_b, None)
 
 
 def truthy(s):
@@ -307,7 +336,7 @@ def load_specs(case):
     for i, (b, sw) in enumerate(zip(BUILTIN, case['builtin_switch'])):
         out.append((b.rsplit('.', 1)[1], i, ok[b], True, truthy(sw), 0, sw))
     for i, c in enumerate(case['customs']):
-        out.append((c['name'], 10 + i, c['how'] in ('ok', 'ctor_raises'), c['how'] != 'ctor_raises',
+        out.append((c['name'] + ('@B' if c.get('module') else ''), 10 + i, c['how'] in ('ok', 'ctor_raises'), c['how'] != 'ctor_raises',
                     truthy(c['switch']), c['order'], c['switch']))
     return out
 
